@@ -197,7 +197,7 @@ func VT_C18_Max() {
 
 // Sum of k lists is pointwise addition: sum(t) == Σ list_i(t) at every instant t >= 0 (a list contributes 0 outside itself).
 func VT_C18_Sum() {
-	k := vt.Bound("sumLists", 2, 3)
+	k := vt.Bound("sumLists", 2, 2)
 	lists := make([][]*Seg, k)
 	var snaps [][]proto.Message
 	names := []string{"a", "b", "c"}
